@@ -39,6 +39,7 @@ type Call struct {
 	Args []string `json:"args,omitempty"`
 	Bind []string `json:"bind,omitempty"` // variable, value descriptor, ...: bound by a let around the call
 	Hex  string   `json:"hex,omitempty"`  // reader input
+	Pkg  string   `json:"pkg,omitempty"`  // current package during the call
 }
 
 // Res is the classified outcome of one call.
@@ -132,6 +133,11 @@ func execCall(scope *slip.Scope, c Call) (r Res) {
 			bindings = append(bindings, slip.List{slip.Symbol(c.Bind[i]), quoteIfNeeded(buildArg(s, c.Bind[i+1]))})
 		}
 		form = slip.List{slip.Symbol("let"), bindings, form}
+	}
+	if c.Pkg != "" {
+		back := slip.ReadString("(common-lisp:in-package :common-lisp-user)", s)[0]
+		defer func() { _ = ev.Try(func() slip.Object { return s.Eval(back, 0) }) }()
+		_ = s.Eval(slip.ReadString("(common-lisp:in-package :"+c.Pkg+")", s)[0], 0)
 	}
 	_ = s.Eval(form, 0)
 	r.Kind = ev.Value
